@@ -15,7 +15,7 @@ def run(v):
     if not F.build(v, PID):
         return
     out = os.path.join(C.WORK, PID)
-    n = 60 if v.tier == "quick" else 1500
+    n = 30 if v.tier == "quick" else 1500
     stats = F.gen(v, PID, out, "upload,compact,behind", n)
     if stats is None:
         return
@@ -43,7 +43,7 @@ def run(v):
                 "compact_run (Faults/Compact.v) and oracle compact_inv_ok; plus a stale-cache scenario (fail-after, more "
                 "writes, L1 and L2 compaction). "
                 "(Re)open: start states {in step, meta dir lost, older checkpointed db file, both, newest local L0 file lost} over a replica 1..6 x a "
-                "fault on each of the first 4 (7 thorough) level-0 client calls of the first SyncAndWait (init's listing and "
+                "fault on each of the first 3 (7 thorough) level-0 client calls of the first SyncAndWait (init's listing and "
                 "baseline OpenLTXFile, Replica.Sync's listing and writes: fail-before / error mid-stream / short read or "
                 "fail-after) x {1,2} consecutive, then a fault-free suffix of commits, SyncAndWait calls and Close; after every "
                 "nil: SyncStatus local == remote, remote advanced if the source changed, Restore = source image, remote L0 "
